@@ -116,6 +116,7 @@ fn check_mps(m: &Model, i: &Instance) -> Result<(), String> {
     if i.constraints.len() != expected.len() { return Err(format!("{} constraints, expected {}", i.constraints.len(), expected.len())); }
     let vals = |f: &v1::Function| -> Vec<f64> { (0..3).map(|w| { let s: HashMap<u64, f64> = id_of.iter().map(|(j, id)| (*id, pt(*j, w))).collect(); ref_val(f, &s).unwrap_or(f64::NAN) }).collect() };
     let mut used = vec![false; i.constraints.len()];
+    expected.sort_by_key(|e| e.2.is_none());   // expectations that name their constraint are matched first
     for (eq, v, name) in &expected {
         let hit = i.constraints.iter().enumerate().position(|(k, c)| !used[k] && c.equality == *eq && c.function.as_ref().map(|f| vals(f).iter().zip(v.iter()).all(|(a, b)| close(*a, *b))).unwrap_or(false) && name.map(|n| c.name.as_deref() == Some(n)).unwrap_or(true));
         match hit { Some(k) => used[k] = true, None => return Err(format!("no constraint with equality {eq}, name {name:?} and values {v:?} at the probe points; constraints read: {:?}", i.constraints.iter().map(|c| (c.name.clone(), c.equality, c.function.as_ref().map(|f| vals(f)))).collect::<Vec<_>>())) }
@@ -332,4 +333,88 @@ pub fn c19() -> Outcome {
         }
     }
     Outcome { cases: n, distinct: d.len(), fail: None }
+}
+
+
+// ------------------------------------------------------------------ part B: random models
+const NAMES: [&str; 8] = ["X1", "y", "Zed", "w_4", "OMMX_VAR_7", "c", "VAR.9", "q"];
+const RNAMES: [&str; 6] = ["R1", "lim", "c3", "ROW_4", "e5", "OMMX_CONSTR_1"];
+
+fn rand_model(r: &mut Rng) -> Model {
+    let nc = 2 + r.below(5); let nr = 1 + r.below(5);
+    let num = |r: &mut Rng| r.pick(&[-4.0, -2.0, -1.5, -1.0, 0.5, 1.0, 2.0, 2.5, 3.0, 10.0]);
+    let mut cols = vec![];
+    for j in 0..nc {
+        let integer = r.chance(1, 3);
+        let bounds: Vec<(&'static str, Option<f64>)> = match r.below(14) {
+            0 => vec![], 1 => vec![("UP", Some(r.pick(&[0.0, 1.0, 4.0, 7.5])))], 2 => vec![("UP", Some(r.pick(&[-1.0, -2.5])))], 3 => vec![("LO", Some(num(r)))], 4 => vec![("FX", Some(num(r)))],
+            5 => vec![("MI", None)], 6 => vec![("PL", None)], 7 => vec![("FR", None)], 8 => vec![("BV", None)], 9 => vec![("LI", Some(r.pick(&[-3.0, 0.0, 2.0])))], 10 => vec![("UI", Some(r.pick(&[1.0, 5.0, 9.0])))],
+            11 => { let l = r.pick(&[-5.0, 0.0, 1.0]); vec![("LO", Some(l)), ("UP", Some(l + r.pick(&[0.0, 1.0, 6.0])))] }
+            12 => vec![("MI", None), ("UP", Some(r.pick(&[-2.0, 3.0])))],
+            _ => vec![("UP", Some(r.pick(&[-3.0, 8.0]))), ("LO", Some(-6.0))],
+        };
+        cols.push(Col { name: NAMES[j], integer, obj: if r.chance(1, 4) { 0.0 } else { num(r) }, bounds });
+    }
+    let mut rows = vec![];
+    for i in 0..nr {
+        let ty = r.pick(&['E', 'L', 'G']);
+        let mut coefs: Vec<(usize, f64)> = vec![]; for j in 0..nc { if r.chance(1, 2) { coefs.push((j, num(r))); } }
+        if coefs.is_empty() { coefs.push((r.below(nc), 1.0)); }
+        rows.push(Row { name: RNAMES[i], ty, coefs, rhs: if r.chance(1, 3) { None } else { Some(num(r)) }, range: if r.chance(1, 4) { Some(r.pick(&[-3.0, -0.5, 1.0, 2.5])) } else { None } });
+    }
+    // every column must occur somewhere (objective or a row), otherwise the file does not declare it
+    Model { maximize: r.pick(&[None, Some(false), Some(true)]), obj_name: r.pick(&["COST", "obj", "OBJ", "z"]), obj_rhs: if r.chance(1, 2) { Some(num(r)) } else { None }, cols, rows }
+}
+
+pub fn c17b() -> Outcome {
+    let mut r = Rng::new(17); let mut n = 0;
+    for _ in 0..budget() {
+        n += 1;
+        let m = rand_model(&mut r); let layout = r.below(8) as u32;
+        let text = render(&m, layout);
+        if n == 2 { note(|| format!("random MPS model (layout {layout}):\n{text}")); }
+        let i = match ommx::mps::load_raw_reader(text.as_bytes()) { Ok(i) => i, Err(e) => return Outcome { cases: n, distinct: n, fail: Some(format!("well-formed MPS text was rejected ({e}):\n{text}")) } };
+        if let Err(e) = check_mps(&m, &i) { return Outcome { cases: n, distinct: n, fail: Some(format!("random MPS model, layout {layout}: {e}\n--- text ---\n{text}")) }; }
+    }
+    Outcome { cases: n, distinct: n, fail: None }
+}
+
+fn rand_qp(r: &mut Rng) -> Qp {
+    let inf = 1e20;
+    let o = r.pick(&['L', 'D', 'C', 'Q']); let v = r.pick(&['C', 'B', 'M', 'I', 'G']); let c = r.pick(&['N', 'B', 'L', 'D', 'C', 'Q']);
+    let has_c = !(c == 'N' || c == 'B');
+    let nv = 3; // check_qp probes three variables
+    let num = |r: &mut Rng| r.pick(&[-4.0, -2.0, -1.5, -1.0, 0.5, 1.0, 2.0, 3.0]);
+    let tri = |r: &mut Rng, diag_only: bool| -> Vec<(usize, usize, f64)> { let mut seen = BTreeSet::new(); let mut e = vec![]; for _ in 0..r.below(5) { let i = r.below(nv); let j = if diag_only { i } else { r.below(i + 1) }; if seen.insert((i, j)) { e.push((i, j, num(r))); } } e };
+    let ncon = if has_c { 1 + r.below(3) } else { 0 };
+    let q0 = if o == 'L' { vec![] } else { tri(r, o == 'D') };
+    let mut qi = vec![]; if has_c && c != 'L' { for m in 0..ncon { for (i, j, v) in tri(r, c == 'D') { qi.push((m, i, j, v)); } } }
+    let mut bi = vec![]; if has_c { let mut seen = BTreeSet::new(); for _ in 0..r.below(2 * ncon + 1) { let m = r.below(ncon); let i = r.below(nv); if seen.insert((m, i)) { bi.push((m, i, num(r))); } } }
+    let mut b0 = vec![]; { let mut seen = BTreeSet::new(); for _ in 0..r.below(3) { let i = r.below(nv); if seen.insert(i) { b0.push((i, r.pick(&[0.0, -2.0, 2.0, 0.5]))); } } }
+    let cl: Vec<f64> = (0..ncon).map(|_| r.pick(&[-inf, -1e21, -3.0, 0.0, 1.0])).collect();
+    let cu: Vec<f64> = (0..ncon).map(|k| { let u = r.pick(&[inf, 3e20, 5.0, 1.0, 0.0, -2.0]); if u < cl[k] { inf } else { u } }).collect();
+    let lbs = [0.0, 1.0, -3.0, -inf, -1e21]; let lb: Vec<f64> = (0..nv).map(|_| r.pick(&lbs)).collect();
+    let ub: Vec<f64> = (0..nv).map(|k| { let l = if lb[k].abs() >= inf { -10.0 } else { lb[k] }; r.pick(&[l, l + 1.0, l + 5.0, inf, 2e20]) }).collect();
+    let types: Vec<u8> = (0..nv).map(|_| if v == 'M' { r.pick(&[0u8, 2]) } else { r.pick(&[0u8, 1, 2]) }).collect();
+    // a declared binary (type 2) carries the bounds of the file; keep them inside [0,1] so the model is well-formed
+    let (lb, ub): (Vec<f64>, Vec<f64>) = (0..nv).map(|k| if (v == 'M' || v == 'G') && types[k] == 2 { (0.0, 1.0) } else { (lb[k], ub[k]) }).unzip();
+    Qp { o, v, c, maximize: r.chance(1, 2), nvars: nv, q0, b0_default: r.pick(&[0.0, 0.0, 1.5, -1.0]), b0, q0c: r.pick(&[0.0, 3.0, -1.5]), qi, bi, inf, cl, cu, lb, ub, types, names: if r.chance(1, 2) { vec![(r.below(nv), "alpha")] } else { vec![] } }
+}
+
+pub fn c19b() -> Outcome {
+    let mut r = Rng::new(19); let mut n = 0;
+    let dir = std::env::var("RX_TMP").unwrap_or_else(|_| ".".to_string());
+    let _ = std::fs::create_dir_all(&dir);
+    let path = format!("{dir}/bounded_c19b_{}.qplib", std::process::id());
+    for _ in 0..budget() {
+        n += 1;
+        let q = rand_qp(&mut r); let comments = r.chance(1, 3);
+        let text = render_qp(&q, comments);
+        if n == 2 { note(|| format!("random QPLIB model {}{}{}:\n{text}", q.o, q.v, q.c)); }
+        if std::fs::write(&path, &text).is_err() { return Outcome { cases: n, distinct: n, fail: Some("cannot write scratch file".into()) }; }
+        let res = ommx::qplib::load_file(&path); let _ = std::fs::remove_file(&path);
+        let i = match res { Ok(i) => i, Err(e) => return Outcome { cases: n, distinct: n, fail: Some(format!("well-formed QPLIB text ({}{}{}) was rejected ({e:#}):\n{text}", q.o, q.v, q.c)) } };
+        if let Err(e) = check_qp(&q, &i) { return Outcome { cases: n, distinct: n, fail: Some(format!("random QPLIB {}{}{}: {e}\n--- text ---\n{text}", q.o, q.v, q.c)) }; }
+    }
+    Outcome { cases: n, distinct: n, fail: None }
 }
